@@ -11,6 +11,9 @@ package ethereum
 // observation-request channel) - never with sleeps, and no wall-clock value is ever written out.
 // Layer 2 ("direct"): MessageEventsForTransaction, getBlock and pollBlocks are called in-process with a
 // scripted Connector (panics recovered and reported).
+// Restarts (op `restart`): when Run has returned with an error the supervised runnable hands that error to the supervisor,
+// which - after its own back-off - calls Run again on the SAME Watcher value; the case goes on and everything forwarded
+// across incarnations is judged by the same Spec.
 //
 // One line per operation goes to $VERIF_OUT/evm.cases; Whv/Driver/Evm.lean replays the model on the same
 // lines (node answers travel in the line) and evaluates the C10 Spec on the implementation's results.
@@ -245,6 +248,8 @@ type vNode struct {
 	bump          map[ethCommon.Hash]map[string]uint64 // on receipt lookup of tx: new heads (head moves while the request is in flight)
 	calls         []string
 	gsErr         bool
+	gsIndex       uint32                          // answer of getCurrentGuardianSetIndex when gsSets != nil
+	gsSets        map[uint32][]ethCommon.Address // nil: the fixed one-key set with index 7 (evm cases); else the chain's sets by index
 	notifier      *rpc.Notifier
 	subID         rpc.ID
 	subCrit       string
@@ -397,10 +402,25 @@ func (e *vEth) Call(ctx context.Context, args map[string]interface{}, blk interf
 			m := vParsedAbi.Methods[name]
 			if string(m.ID) == string(raw[:4]) {
 				if name == "getCurrentGuardianSetIndex" {
-					out, _ := m.Outputs.Pack(uint32(7))
+					idx := uint32(7)
+					if n.gsSets != nil {
+						idx = n.gsIndex
+					}
+					out, _ := m.Outputs.Pack(idx)
 					return out, nil
 				}
-				out, err := m.Outputs.Pack(ethAbi.StructsGuardianSet{Keys: []ethCommon.Address{{1}}, ExpirationTime: 0})
+				keys := []ethCommon.Address{{1}}
+				if n.gsSets != nil {
+					// the contract's getter: the set stored under the requested index (an unknown index has no keys)
+					in, err := m.Inputs.Unpack(raw[4:])
+					if err != nil || len(in) != 1 {
+						return nil, errors.New("malformed getGuardianSet call")
+					}
+					idx, _ := in[0].(uint32)
+					n.calls = append(n.calls, fmt.Sprintf("gs:%d", idx))
+					keys = append([]ethCommon.Address{}, n.gsSets[idx]...)
+				}
+				out, err := m.Outputs.Pack(ethAbi.StructsGuardianSet{Keys: keys, ExpirationTime: 0})
 				if err != nil {
 					return nil, err
 				}
@@ -491,6 +511,27 @@ type vCase struct {
 	lat      uint64
 	flushed  bool // no poller iteration that read "enabled" can still be in flight
 	sticky   []vTxRef // transactions delivered by a race op: their receipt answer is scripted (and written out) at every later op
+	resume   chan struct{} // a token lets the supervised runnable return Run's error to the supervisor, which then restarts it
+	gidMu    sync.Mutex
+	runGID   string // goroutine id of the current incarnation of Run
+	setC     chan *common.GuardianSet // nil in evm cases (guardian-set fetch cases: what the watcher hands to the processor)
+	gsNode   func(*vNode)             // guardian-set fetch cases: configures the node's guardian sets before Run starts
+}
+
+// vGoID is the id of the calling goroutine (as printed in goroutine dumps).
+func vGoID() string {
+	var b [64]byte
+	f := strings.Fields(string(b[:runtime.Stack(b[:], false)]))
+	if len(f) >= 2 {
+		return f[1]
+	}
+	return "?"
+}
+
+func (c *vCase) gid() string {
+	c.gidMu.Lock()
+	defer c.gidMu.Unlock()
+	return c.runGID
 }
 
 var vCaseSeq int64
@@ -559,6 +600,9 @@ func (c *vCase) start(gsErr bool) bool {
 	n := &vNode{heads: map[string]uint64{}, tags: map[string]int{}, receipts: map[ethCommon.Hash]vRcAns{},
 		blocks: map[ethCommon.Hash]vBtAns{}, bump: map[ethCommon.Hash]map[string]uint64{}, wake: make(chan struct{}, 1), gsErr: gsErr}
 	c.node = n
+	if c.gsNode != nil {
+		c.gsNode(n)
+	}
 	c.setHeads(c.lat)
 	rs := rpc.NewServer()
 	c.rs = rs
@@ -575,14 +619,23 @@ func (c *vCase) start(gsErr bool) bool {
 	c.msgC = make(chan *common.MessagePublication, 4096)
 	c.obsC = make(chan *gossipv1.ObservationRequest) // unbuffered on purpose: a completed send is a barrier
 	c.exitC = make(chan error, 1)
+	c.resume = make(chan struct{}, 1)
 	poll := uint(1)
-	c.w = NewEthWatcher(url, c.contract, "verif", readiness.Component(comp), c.chain, c.msgC, nil, c.obsC, c.dev, &poll, c.wait)
+	c.w = NewEthWatcher(url, c.contract, "verif", readiness.Component(comp), c.chain, c.msgC, c.setC, c.obsC, c.dev, &poll, c.wait)
 	ctx, cancel := context.WithCancel(context.Background())
 	c.cancel = cancel
 	supervisor.New(ctx, logger, func(ctx context.Context) error {
+		c.gidMu.Lock()
+		c.runGID = vGoID()
+		c.gidMu.Unlock()
 		err := c.w.Run(ctx)
 		c.exitC <- err
-		<-ctx.Done()
+		// The state Run left behind is recorded first; the error reaches the supervisor (which restarts this runnable, i.e.
+		// calls Run again on the same Watcher, after its back-off) only when the case goes on with a `restart` op.
+		select {
+		case <-ctx.Done():
+		case <-c.resume:
+		}
 		return err
 	})
 	// barrier: Run sets the component ready as its last initialisation step (after SubscribeForBlocks)
@@ -903,8 +956,17 @@ func (c *vCase) settle() {
 // (or has ended). Goroutine states are read from runtime.Stack: the first frame of an idle poller is run itself,
 // while a poller with a request in flight is somewhere below pollBlocks.
 func (c *vCase) pollerParked() bool {
+	found, parked := c.pollerState()
+	if !found {
+		vNotFound++
+	}
+	return !found || parked // no such goroutine any more
+}
+
+// pollerState: does the block poller goroutine of the watcher's current connector exist, and is it idle in its own select?
+func (c *vCase) pollerState() (found, parked bool) {
 	if c.w.ethConn == nil {
-		return true
+		return false, false
 	}
 	ptr := fmt.Sprintf("%p", c.w.ethConn)
 	vDumps++
@@ -920,13 +982,12 @@ func (c *vCase) pollerParked() bool {
 			arg = arg[:j]
 		}
 		if strings.TrimSuffix(arg, "?") != ptr {
-			continue // the poller of another (ending) case
+			continue // the poller of another (ending) case, or of an earlier incarnation
 		}
 		lines := strings.Split(g, "\n")
-		return len(lines) >= 2 && strings.Contains(lines[1], marker)
+		return true, len(lines) >= 2 && strings.Contains(lines[1], marker)
 	}
-	vNotFound++
-	return true // no such goroutine any more
+	return false, false
 }
 
 var vStackBuf = make([]byte, 4<<20)
@@ -947,6 +1008,124 @@ func (c *vCase) waitPollerParked() {
 func (c *vCase) emit(line string) {
 	fmt.Fprintln(c.g.w, line)
 	c.g.lines++
+}
+
+// ---- restart of Run by the supervisor
+
+// vRunGoroutines reads, from one goroutine dump: whether this watcher's Run is parked in its own final select (`waiting`),
+// and how many goroutines started by the incarnation of Run that ran in goroutine `oldGID` can still act (goroutines that
+// are blocked for good in a send on the abandoned error channel do not count).
+func (c *vCase) vRunGoroutines(oldGID string) (waiting bool, oldLive int) {
+	ptr := fmt.Sprintf("%p", c.w)
+	vDumps++
+	buf := vStackBuf[:runtime.Stack(vStackBuf, true)]
+	const marker = "pkg/ethereum.(*Watcher).Run("
+	parent := "pkg/ethereum.(*Watcher).Run in goroutine " + oldGID
+	for _, g := range strings.Split(string(buf), "\n\n") {
+		head := g
+		if nl := strings.IndexByte(head, '\n'); nl >= 0 {
+			head = head[:nl]
+		}
+		lines := strings.Split(g, "\n")
+		if len(lines) >= 2 && strings.Contains(lines[1], marker) {
+			arg := lines[1][strings.Index(lines[1], marker)+len(marker):]
+			if j := strings.IndexAny(arg, ",)"); j >= 0 {
+				arg = arg[:j]
+			}
+			if strings.TrimSuffix(arg, "?") == ptr && strings.Contains(head, "[select") {
+				waiting = true
+			}
+		}
+		if oldGID == "" {
+			continue
+		}
+		if k := strings.LastIndex(g, "created by "); k >= 0 {
+			created := g[k:]
+			if nl := strings.IndexByte(created, '\n'); nl >= 0 {
+				created = created[:nl]
+			}
+			if strings.HasSuffix(created, parent) && !strings.Contains(head, "[chan send") {
+				oldLive++
+			}
+		}
+	}
+	return
+}
+
+// waitGoroutines polls goroutine states until cond holds; also ends when Run exits or on the watchdog.
+func (c *vCase) waitGoroutines(what string, cond func() bool) bool {
+	deadline := time.Now().Add(vWatchdog)
+	for !cond() {
+		select {
+		case err := <-c.exitC:
+			c.exited = vExitKind(err)
+			return false
+		default:
+		}
+		if time.Now().After(deadline) {
+			c.stuck = what
+			return false
+		}
+		time.Sleep(50 * time.Microsecond)
+	}
+	return true
+}
+
+// opRestart: Run has returned (c.exited). Its error is now handed to the supervisor, which cancels the old incarnation's
+// context and, after its back-off, calls Run again on the same Watcher. `gsErr`: the guardian-set call of the new
+// incarnation fails (Run returns again during start-up). The node's heads do not move during the op.
+// Barriers: the goroutines of the old incarnation have ended; the new incarnation has logged its guardian-set fetch (its
+// connector is in place); Run is parked in its final select (all its goroutines and subscriptions exist); the new block
+// poller has read its first block and is idle.
+func (c *vCase) opRestart(gsErr bool, pick func(vTxRef) vRcAns) {
+	mark := c.callMark()
+	ans := c.scriptAnswers(nil, pick)
+	was := c.exited
+	oldGID := c.gid()
+	oldConn := c.w.ethConn
+	from := c.sink.len()
+	c.node.mu.Lock()
+	c.node.bnErrAll, c.node.bnErrLeft, c.node.bnNoNum = false, 0, false
+	c.node.gsErr = gsErr
+	c.node.subCrit = ""
+	c.node.mu.Unlock()
+	c.exited = ""
+	c.resume <- struct{}{}
+	ok := c.waitGoroutines("restart-old-goroutines", func() bool {
+		_, live := c.vRunGoroutines(oldGID)
+		return live == 0 && c.gid() != oldGID
+	})
+	ok = ok && c.waitLog(from, func(e vEntry) bool { return e.msg == "fetching guardian set" })
+	ok = ok && c.waitGoroutines("restart-run", func() bool {
+		w, _ := c.vRunGoroutines("")
+		return w
+	})
+	ok = ok && c.waitGoroutines("restart-poller", func() bool {
+		found, parked := c.pollerState()
+		return found && parked
+	})
+	if ok {
+		c.flushed = true // the new connector starts disabled
+		c.lastPub = c.watched()
+	}
+	if oldConn != nil && oldConn != c.w.ethConn {
+		// Run never closes the RPC client it dialled (see stop)
+		if ec, ok := oldConn.Connector.(*EthereumConnector); ok && ec.rawClient != nil {
+			ec.rawClient.Close()
+		}
+	}
+	c.node.mu.Lock()
+	sub := c.node.subCrit
+	c.node.gsErr = false
+	c.node.mu.Unlock()
+	if sub == "" {
+		sub = "-"
+	}
+	g := 0
+	if gsErr {
+		g = 1
+	}
+	c.emit(fmt.Sprintf("restart %s was=%s gserr=%d %s pe=0 ans=%s sub=%s %s", c.id, was, g, c.headsCanon(), ans, sub, c.results(mark)))
 }
 
 // ---- ops
